@@ -1487,6 +1487,10 @@ class FortranFile:
                 and not FRegex.FIXED_OPENMP.match(line)
             ):
                 continue
+            # Neither are lines that hold nothing but a `!` comment: looking for
+            # their continuation lines made long comment blocks quadratic
+            if get_full and self.fixed and line.lstrip().startswith("!"):
+                continue
             # Get full line, seek forward for code lines
             # @note line_no-1 refers to the array index for the current line
             if get_full:
